@@ -288,3 +288,14 @@ Proof.
     rewrite (transp_fuel_adjoint d Q x r HQne HQ Hrr); [apply vdot_comm | unfold wfv in Hx; rsimp; congruence]. }
   rewrite E. reflexivity.
 Qed.
+
+(* ------------------------------------------------------------------ Cholesky branch of components_from_metric *)
+(* L = C^T: for any C, |L x|^2 = x . C (C^T x); so a factor C with C C^T = M gives L^T L = M *)
+Theorem transp_factor_form d (C : Rm) (x : Rv) : C <> [] -> length C = d -> Forall (wfvR d) C -> wfvR d x ->
+  vsumsqR (mvmulR (transpR C) x) = vdotR x (mvmulR C (mvmulR (transpR C) x)).
+Proof.
+  intros Hne HL HC Hx. unfold vsumsq. rewrite (transp_is_fuel d C Hne HC).
+  apply (transp_fuel_adjoint d C x (mvmulR (transp_fuelR d C) x) Hne HC).
+  - unfold wfv. rewrite mvmul_length. apply transp_fuel_length; auto.
+  - unfold wfv in Hx. rsimp. congruence.
+Qed.
